@@ -7,6 +7,20 @@ HERE = os.path.dirname(os.path.dirname(os.path.abspath(__file__)))
 BASELINE = "cd /repo && /venv/bin/python -m pytest -ra -q -p no:cacheprovider --timeout=900 --continue-on-collection-errors"
 
 CHECKS = {
+    'C01': dict(
+        text='Lean: Spec.PyCore gives a first-order core of Python (ints, bools, strings, None; assignment, if, while/else, break/continue, '
+             'print, assert, raise, global, calls of module-level functions) a fuel-indexed definitional semantics whose observable is '
+             'the printed lines, how the run ends and the final globals. Proved for every module, nesting depth and fuel, through loops '
+             'and calls: remove_pass, remove_literal_statements (with its __doc__ guard), remove_explicit_return_none, '
+             'remove_builtin_exception_brackets, remove_object_base and every pipeline of them (transformM with the other switches off) '
+             'leave the observable unchanged (strong induction on fuel, mutual structural induction on statements). Ties: the semantics '
+             'is validated against CPython exec on generated core programs; the transform model is compared with minify() on them; '
+             'differential execution of original vs minified (stdout, exception type / exit status, public namespace) on generated '
+             'runnable programs and directed corner programs over subsets of the thirteen default-on switches decides the rest on the real code.',
+        note='PARTIAL: constant folding, renaming, hoisting, import combining, annotation removal and positional-only conversion have no '
+             'PyCore theorem (their structural contracts are C02-C07, C09, C10); outside the PyCore fragment the property rests on the oracle.',
+        technique='Lean 4 proof of behaviour preservation over a definitional core semantics + spec validation against CPython + differential execution of the real minifier',
+        ref='§6 C01'),
     'C17': dict(
         text='The property quantifies over a pinned, finite corpus: the thorough check enumerates it completely on the real code (72 files x 11 '
              'size options x 2 bases), the quick check a seeded slice. Lean theorems cover the decision logic meant to guarantee it: a '
